@@ -340,6 +340,34 @@ PROPS = {
 }
 
 
+# What the rounds of independently seeded changes added to the generators / oracles after the rules above were
+# written (DESIGN.md section 11); appended to the evidence rule of each property.
+ADDENDA = {
+    'C01': 'Also generated: blank entries in cgroup lists, multi-tick prekill hooks (the attempted cgroup must be the identity the hook was fired for), flips of memory.oom.group / prefer / avoid between ticks.',
+    'C02': 'Also generated: sub-second tick offsets and scripted actions that take virtual time before they answer; prerun-before-run order.',
+    'C03': 'Also generated: firing ticks before the judged one with oom.group / preference flips (history tracked per cgroup as prerunOnCgroups does), a twin ruleset repeating a kernelkill action in the same tick (cgroup.kill never goes to an emptied cgroup), multi-tick prekill hooks for the tick-independent metrics (the resumed walk is judged as one sequence); every process of a killed subtree must have been signalled.',
+    'C04': 'Also generated: prekill hooks (30 %), systemd_restart under a ruleset-level cgroup (side effects only), restart-only scenarios whose dry and wet virtual time lines must coincide.',
+    'C05': 'Also generated: sub-second tick offsets, actions that take virtual time; a second campaign (c05k) with real kill plugins and a scripted following action.',
+    'C06': 'Also generated: sub-second tick offsets, actions that take virtual time; a second campaign runs real kill plugins suspended on scripted prekill hooks (C17 harness, VP_PROP=C06): a suspended action is not followed by the next action and is run again on the next tick.',
+    'C07': 'Also generated: drop-ins removed and re-added before the run (priority model replays the operations), kill(2) costing 50-900 ms of virtual time so that the hook window closes inside a walk, sub-second ticks.',
+    'C08': 'Also generated: sub-second ticks, pswpout missing from /proc/vmstat for some ticks, the control file a detector reads absent / unreadable / empty for watched cgroups (an unavailable value contributes nothing).',
+    'C09': 'Also generated: one-tick gaps of the pgscan sample with the plugin running on three consecutive ticks; siblings emptied by an earlier kill are not eligible.',
+    'C10': 'Also enumerated: keys missing at one tick only, every child of a prefix vanishing for a tick and coming back (never sampled away), re-creation of a subtree only one non-recursive kill looks at, at every access touching it. Oracles added: a ruleset whose action can only run on a fabricated swap-out rate, an always-parking per-cgroup ruleset that must not act on re-created cgroups, containment judged per cgroup identity, and a per-case watchdog (60 s) that turns a hang into a violation.',
+    'C11': 'Also generated: tag attributes with empty values, sub-second ticks.',
+    'C12': 'Further sub-checks: typed arguments through a harness plugin (also written as bare JSON numbers), detector-group shape mutations, and documents (valid / wrong shape at a generated node / definitely invalid) delivered through the real FsDropInService at start-up and at run time.',
+    'C13': 'Also generated: operations queued in the adaptor and applied as a burst by one updateDropIns(), base rulesets with a ruleset-level cgroup.',
+    'C14': 'Also generated: well-formed JSON of the wrong shape, files with a valid and an unknown target, file events from a second thread while the main loop ticks (also right after the directory was re-created), slow plugin initialisation widening compile windows.',
+    'C15': 'Also generated: per-file faults (absent / empty / unreadable) appearing and healing between ticks with the statistic expected unavailable, unconfigured devices at any position of io.stat, a child removed at the moment its directory entry is returned (DT_UNKNOWN). Non-trivial also = a case with a file fault.',
+    'C16': 'Also checked: equality and hash of the same absolute path reached from deeper cgroup fs roots.',
+    'C17': 'Also generated: prekill hooks (the action answers ASYNC_PAUSED exactly while its invocation object lives), a second detector group per ruleset (the record names the group that fired the chain), victims without a readable memory.pressure.',
+    'C18': 'Also generated: cgroups renamed out of the pattern and back (same inode): state belongs to what was matched on the previous run.',
+    'C19': 'Also generated: requests with filler bytes before a valid mode letter, 15000-30000 counters with clients that read late or never (held across shutdown).',
+    'C20': 'Also generated: lines around and above the 1 MiB budget; in the asan build every condition wait can be entered 0.1-4 ms late and shutdown is preceded by a random pause (lost wake-ups show as hangs caught by the watchdog).',
+}
+for _p, _t in ADDENDA.items():
+    PROPS[_p]['rule'] = PROPS[_p]['rule'] + ' ' + _t
+
+
 def run_property(r):
     """r: PropRunner. Returns the coverage dict for the evidence file."""
     spec = PROPS[r.prop]
